@@ -38,7 +38,8 @@ using namespace vh;
 using smooth::PolynomialBasis;
 
 constexpr std::size_t KMAX   = 10;
-constexpr std::size_t PMAX   = 4;   // monomial_derivatives<K,P>, monomial_integral<K,P>
+constexpr std::size_t PMAX   = 4;   // monomial_derivatives<K,P>; monomial_integral<K,P> tables that are re-proved in Lean (T2)
+constexpr std::size_t PIMAX  = 11;  // monomial_integral<K,P>: every order up to K+1 is dumped, audited exactly and compared with the model (seed C20e)
 constexpr std::size_t LGRMAX = 16;
 
 // ------------------------------------------------------------------ compile-time dispatch
@@ -241,8 +242,8 @@ static bool eval_op(const std::string & op, const std::string & grp, const std::
     if (c == std::string::npos || !x.empty()) return false;
     const std::size_t K = std::stoul(grp.substr(0, c)), P = std::stoul(grp.substr(c + 1));
     return with_index<KMAX + 1>(K, [&](auto I) {
-      with_index<PMAX + 1>(P, [&](auto J) { flat(MonInt<I.value, J.value>::tab, out); });
-    }) && P <= PMAX;
+      with_index<PIMAX + 1>(P, [&](auto J) { flat(MonInt<I.value, J.value>::tab, out); });
+    }) && P <= PIMAX;
   }
   if (op == "poly_lgr") {
     if (!x.empty()) return false;
@@ -278,7 +279,8 @@ static void dump_tables()
       run_line("poly_cumbasis", g, {}, "table");
     }
   for (std::size_t K = 0; K <= KMAX; ++K)
-    for (std::size_t P = 0; P <= PMAX; ++P) run_line("poly_monint", std::to_string(K) + ":" + std::to_string(P), {}, "table");
+    for (std::size_t P = 0; P <= std::max<std::size_t>(PMAX, K + 1); ++P)
+      run_line("poly_monint", std::to_string(K) + ":" + std::to_string(P), {}, P <= PMAX ? "table" : "table_high_order");
   for (std::size_t K = 1; K <= LGRMAX; ++K) run_line("poly_lgr", std::to_string(K), {}, "table");
 }
 
